@@ -675,36 +675,52 @@ def run(ctx):
         "known finding %s is %s: divergences TLC explains with the deviation-on operators are %s"
         % (KNOWN, "open" if known_open else "NOT open", "counted as KNOWN-FINDING" if known_open else "violations"),
     ]
-    # 1. design level: closed two-layer model (3 packages x 3 tags); complete reference LTS
+    # 1. design level.  The closed configurations and the two negative controls do not depend on
+    #    each other or on /repo: they run beside the LTS emission and the replay (joined in 2c).
+    from concurrent.futures import ThreadPoolExecutor
+    pool = ThreadPoolExecutor(4)
+
+    def bg(cfg, workers):
+        return pool.submit(ctx.tlc, "Debtags", cfg, count=False, workers=workers)
+
+    f_src = bg("MC_Debtags_src_quick.cfg" if quick else "MC_Debtags_src.cfg", 4)   # retained source of copies
+    f_sh = bg("MC_Debtags_shallow.cfg", 1)      # negative control: sets shared -> SourceInverse violated
+    f_dev = bg("MC_Debtags_dev.cfg", 1)         # negative control: named deviation ON -> Inverse violated
     if quick:
-        r_closed = ctx.tlc_must_hold("Debtags", "MC_Debtags.cfg", workers=8)
-        g, tables, r_lts = load_lts(ctx, "MC_Debtags_lts_small.cfg")      # 2 packages x 3 tags
-        r_big = None
+        f_closed = bg("MC_Debtags.cfg", 4)                                         # 3 packages x 3 tags
+        f_big = None
+        g, tables, r_lts = load_lts(ctx, "MC_Debtags_lts_small.cfg")              # 2 packages x 3 tags
     else:
-        g, tables, r_lts = load_lts(ctx, "MC_Debtags_lts.cfg")            # 3 packages x 3 tags
-        r_closed = r_lts
-        r_big = ctx.tlc_must_hold("Debtags", "MC_Debtags_big.cfg", workers=8)
-    # retained source of copies: closed configuration + negative control (sets shared -> violation)
-    r_src = ctx.tlc_must_hold("Debtags", "MC_Debtags_src_quick.cfg" if quick else "MC_Debtags_src.cfg", workers=8)
-    r_sh = ctx.tlc("Debtags", "MC_Debtags_shallow.cfg", count=False, workers=2)
-    if r_sh.violated not in ("SourceInverse", "SourceRefines"):
-        raise core.MachineryError("negative control failed: ShallowCopy gives %r, expected SourceInverse violated" % (r_sh.violated,))
-    # spec-level negative control: with the named deviation ON TLC must report Inverse violated
-    r_dev = ctx.tlc("Debtags", "MC_Debtags_dev.cfg", count=False, workers=2)
-    if r_dev.violated != "Inverse":
-        raise core.MachineryError("negative control failed: deviation ON gives %r, expected Inverse violated" % (r_dev.violated,))
+        f_closed = None
+        f_big = bg("MC_Debtags_big.cfg", 4)                                        # 4 packages x 3 tags
+        g, tables, r_lts = load_lts(ctx, "MC_Debtags_lts.cfg")                    # 3 packages x 3 tags
+
+    def join_design():
+        """results of the background runs; a violated design configuration is a specification defect"""
+        out = {}
+        for name, f, want in (("closed", f_closed, None), ("big", f_big, None), ("src", f_src, None),
+                              ("shallow", f_sh, ("SourceInverse", "SourceRefines")), ("dev", f_dev, ("Inverse",))):
+            if f is None:
+                continue
+            r = f.result()
+            if want is None:
+                if r.violated:
+                    raise core.MachineryError("specification Debtags (%s configuration) violates %s\n%s" % (name, r.violated, r.tail))
+                ctx.states += r.distinct
+                ctx.transitions += r.generated
+            elif r.violated not in want:
+                raise core.MachineryError("negative control %s failed: TLC reports %r, expected %s violated" % (name, r.violated, want[0]))
+            out[name] = r
+        return out
+
     ops = {}
     for e in g.edges:
         ops[e["op"]] = ops.get(e["op"], 0) + 1
-    ctx.extra["lts"] = {"states": len(g.states), "edges": len(g.edges), "tlc_wall_s": round(r_lts.wall, 1),
-                        "closed_3x3_states": r_closed.distinct, "closed_4x3_states": r_big.distinct if r_big else None}
     ctx.extra["edges_per_action"] = ops
     ctx.extra["model_constants"] = {"PK": ["p", "ab", "cdc"], "PK_of_replayed_LTS": ["p", "aba"] if quick else ["p", "ab", "cdc"],
-                                    "FT": ["fg::h", "fg::i", "j::h"],
-                                    "ReadDrops": [[], ["fg::h"], ["fg::i", "j::h"]], "deviation": "InsertNewTagStoresChars=FALSE"}
-    ctx.extra["negative_control_spec"] = ["InsertNewTagStoresChars=TRUE -> TLC: invariant %s violated" % r_dev.violated,
-                                          "ShallowCopy=TRUE -> TLC: invariant %s violated" % r_sh.violated]
-    ctx.extra["retained_source_config_states"] = r_src.distinct
+                                    "FT": ["fg::h", "fg::i", "j::h"], "ReadDrops": [[], ["fg::h"], ["fg::i", "j::h"]],
+                                    "deviation": "InsertNewTagStoresChars=FALSE", "ShallowCopy": False,
+                                    "SrcSteps (retained-source configuration)": 2}
 
     paths = g.paths()
     model_names = sorted({tuple(n) for t in tables.values() for n in t["names"]})
@@ -743,7 +759,9 @@ def run(ctx):
     for idx, e in enumerate(g.edges):
         if nviol[0] >= 5:
             break
-        for c in range(nconc):
+        # thorough: the 33 000 restrict/filter transitions of the 3x3 LTS get one of the two forms each
+        reps = range(nconc) if quick or e["op"] not in ("restrict_p", "filter_t") else (idx % 2,)
+        for c in reps:
             conc = concs[0] if c == 0 else concs[1 + (idx % 24)]
             path = paths[e["_f"]] + [e]
             if c == 1 and e["op"] != "copy":
@@ -757,7 +775,7 @@ def run(ctx):
         describe(concretize_step(x, Conc(canonical=True), rng, [])) for x in paths[mid["_f"]] + [mid]))
 
     # 2b. random walks from DB() (long histories; queries checked after every call)
-    nwalks, wlen = (300, 12) if quick else (2000, 25)
+    nwalks, wlen = (250, 12) if quick else (1200, 25)
     w8 = {"insert": 6, "read": 2, "reverse": 3, "copy": 1, "facet": 3, "restrict_p": 1, "filter_t": 1}
     for w in range(nwalks):
         if nviol[0] >= 5:
@@ -769,7 +787,16 @@ def run(ctx):
     ctx.extra["replayed_last_call_per_method"] = called
     ctx.extra["behaviours_diverged"] = len(diverged)
 
-    # 2c. TLC judges the diverged behaviours (deviation allowed only while the finding is open)
+    # 2c. join the design-level runs; TLC judges the diverged behaviours (deviation allowed only
+    #     while the finding is open)
+    design = join_design()
+    pool.shutdown()
+    ctx.extra["lts"] = {"states": len(g.states), "edges": len(g.edges), "tlc_wall_s": round(r_lts.wall, 1),
+                        "closed_3x3_states": design["closed"].distinct if "closed" in design else r_lts.distinct,
+                        "closed_4x3_states": design["big"].distinct if "big" in design else None,
+                        "retained_source_config_states": design["src"].distinct}
+    ctx.extra["negative_control_spec"] = ["InsertNewTagStoresChars=TRUE -> TLC: invariant %s violated" % design["dev"].violated,
+                                          "ShallowCopy=TRUE -> TLC: invariant %s violated" % design["shallow"].violated]
     hits = 0
     if diverged:
         traces = [t for _, _, t in diverged]
@@ -792,7 +819,7 @@ def run(ctx):
             ctx.sample("known-finding behaviour: " + " ; ".join(describe(s) for s in case["plan"]) + "  -> " + msg[:160])
 
     # 3. code -> spec: recorded histories validated by TLC
-    ntr, nops, maxpk = (250, 14, 12) if quick else (2400, 30, 30)
+    ntr, nops, maxpk = (220, 14, 12) if quick else (1600, 30, 30)
     batch = 400
     recorded = [record_history(rng, nops, maxpk if i % 3 else 5) for i in range(ntr)]
     plans = [p for p, _ in recorded]
@@ -833,6 +860,9 @@ def run(ctx):
             opc[s["op"]] = opc.get(s["op"], 0) + 1
     ctx.extra["recorded_calls_per_method"] = opc
     ctx.sample("recorded history (first calls): " + " ; ".join(describe(s) for s in plans[0][:4])[:400])
+    # the design-level runs finish in any order: list them deterministically in the evidence
+    order = {id(r): i for i, r in enumerate(ctx.tlc_runs)}
+    ctx.tlc_runs.sort(key=lambda r: (0, r["generated"]) if r["module"] == "Debtags" else (1, order[id(r)]))
 
 
 def brief(ev):
